@@ -417,3 +417,55 @@ func VerifC02_BoltV2IDWidth() {
 	verif.Assert(id2 != id, "two live counters map to the same wire id")
 	verif.Cover("end")
 }
+
+// VerifC01_BoltV2HeaderOverflow: a decoded frame gets a header value so long
+// that the header block sits at the 16-bit boundary of the length field
+// (65535 fits, 65536 and more do not): the re-encoded frame either decodes to
+// exactly the modified content, or Encode refuses with an error - never a
+// frame whose header length field lies about what follows.
+func VerifC01_BoltV2HeaderOverflow() {
+	kind := verif.Choose("kind", 2) // request, response
+	meta := RequestHeaderLen
+	if kind == 1 {
+		meta = ResponseHeaderLen
+	}
+	b := verif.Bytes("f", meta+2)
+	b[0] = ProtocolCode
+	b[2] = bolt.CmdTypeRequest
+	if kind == 1 {
+		b[2] = bolt.CmdTypeResponse
+	}
+	o := meta - 8
+	b[o], b[o+1], b[o+2], b[o+3] = 0, 0, 0, 0 // no class, no header
+	b[o+4], b[o+5], b[o+6], b[o+7] = 0, 0, 0, 2
+	ctx := zzCtx()
+	frame, err := boltv2Protocol{}.Decode(ctx, buffer.NewIoBufferBytes(b))
+	verif.Assert(frame != nil && err == nil, "well-formed frame must decode")
+	if frame == nil {
+		return
+	}
+	xf := frame.(api.XFrame)
+	// one pair "k" -> value: block length = 4 + 1 + 4 + len(value)
+	vlen := []int{65535 - 9, 65536 - 9, 65536 - 9 + 3}[verif.Choose("value_len", 3)]
+	val := make([]byte, vlen)
+	for i := range val {
+		val[i] = 'a'
+	}
+	xf.GetHeader().Set("k", string(val))
+	out, err := boltv2Protocol{}.Encode(ctx, frame)
+	if err != nil {
+		verif.Assert(vlen+9 > 65535, "a representable header block was refused")
+		verif.Cover("refused")
+		return
+	}
+	verif.Assert(vlen+9 <= 65535, "a header block longer than the 16-bit length field can express was encoded instead of refused: the frame's length fields do not describe what follows")
+	wire := append([]byte{}, out.Bytes()...)
+	verif.Assert(len(wire) == meta+vlen+9+2, "wire length is not the sum of its parts")
+	frame2, err := boltv2Protocol{}.Decode(zzCtx(), buffer.NewIoBufferBytes(wire))
+	verif.Assert(frame2 != nil && err == nil, "re-encoded frame does not decode")
+	if frame2 != nil {
+		v, ok := frame2.(api.XFrame).GetHeader().Get("k")
+		verif.Assert(ok && len(v) == vlen, "the long header value did not survive the re-encode")
+	}
+	verif.Cover("encoded")
+}
